@@ -11,15 +11,20 @@
      number_value_seq_init / number_value_map_init
                                    `[` first (both builds), `{` first (default build): invalid type, whatever follows, positioned
                                    where end_seq / end_map leave the reader
-     number_target_text_is_value   DEFAULT build: the statement of the task that is true as it stands
+     number_target_text_is_value   DEFAULT build: the clauses of the task that are true as they stand (iff; non-number -> invalid type at
+                                   the fix_position position; an error of the untyped pipeline -> the same error OR invalid type)
      number_target_text_is_value_partial
-                                   both builds, with the corrections the real code forces (see the counterexamples)
+                                   both builds; under arbitrary_precision a document starting with `{` is excluded (private token)
+     number_target_text_errors     which error exactly ("the same error" alone is false: counterexamples)
    Part 2  the Value route
-     number_target_value_is_identity      default build
+     number_target_value_is_identity      default build (under the representation invariant; counterexamples outside it)
      number_target_value_ap_respell       arbitrary_precision: the exact relation (re-spelling of Proofs/ValueDeAgreeAp.v, finding F19)
-   Part 3  number_target_agree (default build) / number_target_agree_partial (arbitrary_precision)
-   Part 4  number_target_ap_verbatim_partial (arbitrary_precision; an object first is excluded, counterexample)
-   Every `_partial` comes with `Example`s showing why the unrestricted statement is false. *)
+     number_target_value_ap_identity_iff  identity exactly on the canonical spellings
+   Part 3  number_target_agree (default build) / number_target_agree_partial (arbitrary_precision, objects excluded, numbers re-spelled)
+   Part 4  number_target_ap_verbatim (a literal between whitespace comes back verbatim) /
+           number_target_ap_verbatim_partial (whatever is accepted is such a document; `{` first excluded, counterexample)
+   Every `_partial` comes with `Example`s showing why the unrestricted statement is false.
+   Helper: Proofs/NumberTargetFinite.v (the number parser never returns a non-finite F64 nor a non-negative I64). *)
 From Coq Require Import Lia ZifyBool ZifyNat ZifyN.
 From SJ Require Import Base.Bytes Base.Utf8 Base.FloatB Gen.Tables
   Model.Read Model.Str Model.Num Model.Value Model.De Model.NumberM Model.DeTyped Model.ValueDe Model.NumberTarget
@@ -171,7 +176,6 @@ Proof.
     + exists (NNeg z). split; [reflexivity|].
       rewrite (number_of_i64_neg (cf E) z (parse_any_number_i64_neg E positive s0 z s1 Hrun)), Hap. reflexivity.
     + exfalso. unfold parse_any_number in Hrun. rewrite Hap in Hrun.
-      pose proof (parse_integer_sane E positive s0 (PString lit) s1 Hrun) as _.
       (* parse_integer never builds PString: by inspection of its three exits *)
       unfold parse_integer in Hrun. apply bind_ok_inv in Hrun as ([o s2] & _ & Hrun).
       destruct o as [c|]; [|discriminate Hrun].
@@ -392,7 +396,6 @@ Proof.
     assert (HE : tm E = TEof).
     { unfold number_from_text_n in H. apply nbind_ok_inv in H as ([n' s1] & _ & H).
       apply nbind_ok_inv in H as (s2 & Hend & _). apply of_res_ok_inv in Hend. exact (proj1 (de_end_ok E s1 s2 Hend)). }
-    destruct (N.eq_dec 91 91) as [_|]; [|congruence].
     destruct (first_sig inp) as [b|] eqn:Hf.
     + destruct (N.eq_dec b 91) as [->|Hn91].
       { unfold number_from_text_n in H. rewrite (number_value_seq_init E inp Hf) in H. discriminate H. }
@@ -545,37 +548,43 @@ Qed.
 (* (3) exactly.  `[` first: invalid type whatever follows (the visitor refuses before anything of the array is read); `{` first, default
    build: the same; otherwise the error of the untyped pipeline, except that a well-formed null / bool / string is refused BEFORE
    Deserializer::end gets to complain about what follows it. *)
+Definition starts_with (inp : bytes) (b : byte) : bool :=
+  match first_sig inp with Some x => x =? b | None => false end.
+
+Lemma starts_with_true inp b : starts_with inp b = true <-> first_sig inp = Some b.
+Proof.
+  unfold starts_with. destruct (first_sig inp) as [x|]; [|split; discriminate].
+  split; [intros H; apply N.eqb_eq in H; subst x; reflexivity|intros [= ->]; apply N.eqb_refl].
+Qed.
+
 Theorem number_target_text_errors : forall e inp c i,
   (arbitrary_precision (cf e) = true -> tm e = TEof) ->
   from_input e inp = Err c i ->
-  match first_sig inp with
-  | Some 91 => number_from_text e inp = vres_of_res inp (Err (Message MInvalidType) (err_idx e (end_seq_st e (open_st inp))))
-  | Some 123 => arbitrary_precision (cf e) = false ->
-                number_from_text e inp = vres_of_res inp (Err (Message MInvalidType) (err_idx e (end_map_st e (open_st inp))))
-  | _ =>
+  if starts_with inp 91 then
+    number_from_text e inp = vres_of_res inp (Err (Message MInvalidType) (err_idx e (end_seq_st e (open_st inp))))
+  else if starts_with inp 123 then
+    arbitrary_precision (cf e) = false ->
+    number_from_text e inp = vres_of_res inp (Err (Message MInvalidType) (err_idx e (end_map_st e (open_st inp))))
+  else
     match parse_value (value_fuel inp) e (init_st inp) with
     | Ok (v, s1) =>
       if is_number v then number_from_text e inp = vres_of_res inp (Err c i)
       else (c = TrailingCharacters \/ exists k, c = Io k)
            /\ number_from_text e inp = vres_of_res inp (Err (Message MInvalidType) (err_idx e s1))
     | _ => number_from_text e inp = vres_of_res inp (Err c i)
-    end
-  end.
+    end.
 Proof.
   intros e inp c i HE Herr.
-  destruct (first_sig inp) as [b|] eqn:Hf.
-  - destruct (N.eq_dec b 91) as [->|Hn91].
-    { unfold number_from_text, number_from_text_n. rewrite (number_value_seq_init e inp Hf). reflexivity. }
-    destruct (N.eq_dec b 123) as [->|Hn123].
-    { intros Hap. unfold number_from_text, number_from_text_n. rewrite (number_value_map_init e inp Hf Hap). reflexivity. }
-    assert (H91 : first_sig inp <> Some 91) by (rewrite Hf; congruence).
-    assert (H123 : first_sig inp <> Some 123) by (rewrite Hf; congruence).
-    pose proof (text_error_core e inp c i HE H91 H123 Herr) as H.
-    destruct b as [|p]; [exact H|].
-    do 7 (destruct p as [p|p|]; try exact H); try (exfalso; apply Hn91; reflexivity); try (exfalso; apply Hn123; reflexivity).
-  - assert (H91 : first_sig inp <> Some 91) by (rewrite Hf; discriminate).
-    assert (H123 : first_sig inp <> Some 123) by (rewrite Hf; discriminate).
-    exact (text_error_core e inp c i HE H91 H123 Herr).
+  destruct (starts_with inp 91) eqn:S91.
+  { apply starts_with_true in S91. unfold number_from_text, number_from_text_n. rewrite (number_value_seq_init e inp S91). reflexivity. }
+  destruct (starts_with inp 123) eqn:S123.
+  { apply starts_with_true in S123. intros Hap. unfold number_from_text, number_from_text_n.
+    rewrite (number_value_map_init e inp S123 Hap). reflexivity. }
+  assert (H91 : first_sig inp <> Some 91).
+  { intros Hf. apply starts_with_true in Hf. rewrite Hf in S91. discriminate S91. }
+  assert (H123 : first_sig inp <> Some 123).
+  { intros Hf. apply starts_with_true in Hf. rewrite Hf in S123. discriminate S123. }
+  exact (text_error_core e inp c i HE H91 H123 Herr).
 Qed.
 
 (* ---- counterexamples to the unrestricted statements --------------------------------------------------------------------------------------- *)
@@ -827,14 +836,13 @@ Proof. repeat split; vm_compute; reflexivity. Qed.
 Definition doc_b_tok : bytes := [123; 34; 98; 34; 58; 49; 44; 34] ++ NUMBER_TOKEN_V ++ [34; 58; 34; 49; 34; 125].
 Definition doc_tok_b : bytes := [123; 34] ++ NUMBER_TOKEN_V ++ [34; 58; 34; 49; 34; 44; 34; 98; 34; 58; 50; 125].
 Example agree_ap_objects :
-  (exists v, from_input ex_Ea doc_b_tok = Ok v /\ number_from_value ex_cfa ex_fx v = VErr (Message MInvalidLength) 0 0)
+  from_input ex_Ea doc_b_tok = Ok (VObj [(NUMBER_TOKEN_V, VStr [49]); ([98], VNum (NLit [49]))])
+  /\ number_from_value ex_cfa ex_fx (VObj [(NUMBER_TOKEN_V, VStr [49]); ([98], VNum (NLit [49]))]) = VErr (Message MInvalidLength) 0 0
   /\ number_from_text ex_Ea doc_b_tok = VErr (Message MCustom) 1 4
-  /\ (exists v, from_input ex_Ea doc_tok_b = Ok v /\ number_from_value ex_cfa ex_fx v = VErr (Message MInvalidLength) 0 0)
-  /\ number_from_text ex_Ea doc_tok_b = VErr TrailingComma 1 35.
-Proof.
-  split; [eexists; split; vm_compute; reflexivity|]. split; [vm_compute; reflexivity|].
-  split; [eexists; split; vm_compute; reflexivity|]. vm_compute; reflexivity.
-Qed.
+  /\ from_input ex_Ea doc_tok_b = Ok (VObj [(NUMBER_TOKEN_V, VStr [49]); ([98], VNum (NLit [50]))])
+  /\ number_from_value ex_cfa ex_fx (VObj [(NUMBER_TOKEN_V, VStr [49]); ([98], VNum (NLit [50]))]) = VErr (Message MInvalidLength) 0 0
+  /\ number_from_text ex_Ea doc_tok_b = VErr TrailingComma 1 36.
+Proof. repeat split; vm_compute; reflexivity. Qed.
 
 (* ================================================================================================================================
    4. arbitrary_precision: the literal comes back verbatim (C20 shape)
